@@ -37,7 +37,7 @@ def cases(tier, seed):
             "maxiter": int(gen.pick(rng, [3, 6, 12, 30])),
             "maxfun": int(gen.pick(rng, [20, 100, 15000])),
             "ftol": float(gen.pick(rng, [0.0, 1e-12, 1e-6])),
-            "gtol": float(gen.pick(rng, [1e-9, 1e-5])),
+            "gtol": float(gen.pick(rng, [1e-9, 1e-5, 1e-5, 1e2])),
             "cb": "never",
         }
         s = "packaged" if rng.random() < 0.2 else float(np.exp(rng.uniform(np.log(1e-3), np.log(1e3))))
